@@ -108,12 +108,17 @@ type script struct {
 	Garbage      bool     `json:"garbage"`
 	NoCert       bool     `json:"no_cert"`
 	DieAfterRPCs int      `json:"die_after_rpcs"`
+	// DieAfterMSFor: instance key -> milliseconds after "ready" at which that instance ends on its own
+	DieAfterMSFor map[string]int `json:"die_after_ms_for"`
+	DieExitCode   int            `json:"die_exit_code"`
+	// client: pause after each request read from stdin (paces the runner's hand-over)
+	ReadDelayMS int `json:"read_delay_ms"`
 	StartDelayMS int      `json:"start_delay_ms"`
 	StopDelayMS  int      `json:"stop_delay_ms"`
 }
 
 func loadScript() *script {
-	s := &script{Default: "delegate", ExitAfterAnswers: -1, ExitAfterReads: -1, DieAfterRPCs: -1, Mode: "delegate"}
+	s := &script{Default: "delegate", ExitAfterAnswers: -1, ExitAfterReads: -1, DieAfterRPCs: -1, Mode: "delegate", DieExitCode: 1}
 	if raw := os.Getenv("VERIF_PEER_SCRIPT"); raw != "" {
 		if err := json.Unmarshal([]byte(raw), s); err != nil {
 			fmt.Fprintln(os.Stderr, "verifpeer: bad script:", err)
@@ -195,7 +200,8 @@ func probe(req *conformancev1.ClientCompatRequest) string {
 }
 
 func runClient(sc *script) int {
-	logEv("client_start", nil)
+	pipeSize, _, _ := syscall.Syscall(syscall.SYS_FCNTL, 0, 1032 /* F_GETPIPE_SZ */, 0)
+	logEv("client_start", map[string]any{"stdin_pipe_bytes": int(pipeSize)})
 	rng := &lcg{s: uint64(sc.Seed)*2654435761 + 12345}
 	// the real reference client, in-process, behind pipes
 	dinR, dinW := io.Pipe()
@@ -279,11 +285,14 @@ func runClient(sc *script) int {
 			}
 		}
 		ev := map[string]any{"name": req.TestName, "host": req.Host, "port": req.Port, "protocol": int(req.Protocol), "http_version": int(req.HttpVersion),
-			"tls": len(req.ServerTlsCert) > 0, "client_cert": req.ClientTlsCreds != nil, "name_header": hdr, "stream_type": int(req.StreamType), "codec": int(req.Codec), "compression": int(req.Compression)}
+			"tls": len(req.ServerTlsCert) > 0, "client_cert": req.ClientTlsCreds != nil, "name_header": hdr, "stream_type": int(req.StreamType), "codec": int(req.Codec), "compression": int(req.Compression), "bytes": len(b) + 4}
 		if sc.Probe {
 			ev["probe"] = probe(req)
 		}
 		logEv("client_recv", ev)
+		if sc.ReadDelayMS > 0 {
+			time.Sleep(time.Duration(sc.ReadDelayMS) * time.Millisecond)
+		}
 		act := sc.Default
 		if a, ok := sc.Actions[req.TestName]; ok {
 			act = a
@@ -439,11 +448,13 @@ func loggingServer(ctx context.Context, sc *script, req *conformancev1.ServerCom
 			f.Flush()
 		}
 		if sc.DieAfterRPCs >= 0 && n >= sc.DieAfterRPCs {
+			mu.Lock()
 			select {
 			case <-die:
 			default:
 				close(die)
 			}
+			mu.Unlock()
 		}
 	})
 	var tlsConf *tls.Config
@@ -516,15 +527,27 @@ func loggingServer(ctx context.Context, sc *script, req *conformancev1.ServerCom
 	}
 	logEv("server_ready", map[string]any{"key": key, "host": host, "port": port, "has_cert": len(resp.PemCert) > 0})
 	_, _ = os.Stdout.Write(frame(resp))
+	if ms, ok := sc.DieAfterMSFor[key]; ok {
+		go func() {
+			time.Sleep(time.Duration(ms) * time.Millisecond)
+			mu.Lock()
+			defer mu.Unlock()
+			select {
+			case <-die:
+			default:
+				close(die)
+			}
+		}()
+	}
 	select {
 	case <-ctx.Done():
 		code := stop("signal")
 		shutdown()
 		return code
 	case <-die:
-		logEv("server_exit", map[string]any{"key": key, "why": "scripted death"})
+		logEv("server_exit", map[string]any{"key": key, "why": "scripted death", "code": sc.DieExitCode})
 		shutdown()
-		return 1
+		return sc.DieExitCode
 	}
 }
 
